@@ -3,7 +3,8 @@
    list is mapped back to index-rectangles of the model's grid and must pass the verified
    checker is_cover; equality with the model's own greedy cover is NOT required. *)
 From FrameModel Require Import Num.QcTac Geometry.Rect Cases.Cmp
-  Die.Boundaries Die.Cells Die.Cover Die.DieModel.
+  Die.Boundaries Die.Cells Die.Cover Die.DieModel Die.DieInput.
+From Coq Require Import Ascii String.
 Open Scope Qc_scope.
 
 Fixpoint index_of (v : Qc) (l : list Qc) : option nat :=
@@ -104,3 +105,54 @@ Definition model_grid (eps : Qc) (d : desc) : list Qc * list Qc * list (list boo
       let ys := die_ys eps w h ins in
       (xs, ys, cell_matrix xs ys ins)
   end.
+
+(* ---- input forms (Die/DieInput.v): the description arrives as a dict, a str ('<W>x<H>',
+   YAML text, file name) or an open stream; [files] / [loads] are the file the harness wrote and
+   the tree the generated text stands for ---- *)
+Definition nl : string := String (ascii_of_nat 10) EmptyString.
+Definition tab : string := String (ascii_of_nat 9) EmptyString.
+
+Definition agree_accept_in (files : list (string * string)) (loads : list (string * yload))
+    (eps aeps deps tin : Qc) (i : die_input) (fx G S B Fx : list Rect) : bool :=
+  match desc_of (files_of files) (loader_of loads) i fx with
+  | Some d => agree_accept eps aeps deps tin d G S B Fx
+  | None => false
+  end.
+
+Definition agree_reject_in (files : list (string * string)) (loads : list (string * yload))
+    (eps aeps deps tin : Qc) (i : die_input) (fx : list Rect) (cls : option reason) : bool :=
+  match die_in_cells (files_of files) (loader_of loads) eps aeps deps tin i fx with
+  | IRes (Reject why) => match cls with None => true | Some c => reason_eqb why c end
+  | INonFinite => true
+  | _ => false
+  end.
+
+(* an exception other than an assertion escaped (OSError, the loader's errors) *)
+Definition agree_raise_in (files : list (string * string)) (loads : list (string * yload))
+    (eps aeps deps tin : Qc) (i : die_input) (fx : list Rect) : bool :=
+  match die_in_cells (files_of files) (loader_of loads) eps aeps deps tin i fx with
+  | IRaise | INonFinite => true
+  | _ => false
+  end.
+
+(* yaml_parse_die.string_die called directly: cls 0 = None, 1 = assertion, 2 = infinite shape,
+   3 = Shape(w, h) (the observed floats within one rounding of the exact decimal value) *)
+Definition sd_agrees (s : string) (cls : nat) (w h : Qc) : bool :=
+  match string_die s, cls with
+  | SDNone, 0%nat => true
+  | SDNotPositive, 1%nat => true
+  | SDInfinite, 2%nat => true
+  | SDShape mw mh, 3%nat => qclose_rel 1 mw w && qclose_rel 1 mh h
+  | _, _ => false
+  end.
+
+(* accepted by the comparator = accepted by the model of the input form, with the very cover
+   the implementation reported *)
+Lemma agree_accept_in_resolved files loads eps aeps deps tin i fx G S B Fx :
+  agree_accept_in files loads eps aeps deps tin i fx G S B Fx = true ->
+  exists t, resolve (files_of files) (loader_of loads) i = RTree t /\
+            agree_accept eps aeps deps tin (mkDesc t fx) G S B Fx = true.
+Proof.
+  unfold agree_accept_in, desc_of. destruct (resolve _ _ i) as [t| | |]; try discriminate.
+  intro H. exists t. split; [reflexivity | exact H].
+Qed.
